@@ -6,6 +6,9 @@ use crate::ops::{d, first_diff, hx, mmode};
 use crate::plan::*;
 use crate::rng::Fnv;
 use std::sync::Arc;
+#[cfg(not(feature = "full"))]
+use crate::lean::LeanZeroize;
+#[cfg(feature = "full")]
 use zeroize::Zeroize;
 
 macro_rules! get {
